@@ -62,11 +62,13 @@ func (c Call) String() string {
 
 // Node is one instance's view of the cloud.
 type Node struct {
-	mu      vrt.Mutex
-	ENIs    map[string]*NodeENI
-	nextENI int
-	nextIP  int
-	Log     []Call
+	// HideNext: addresses the NEXT metadata view omits although they are still assigned (one-shot)
+	HideNext map[netip.Addr]bool
+	mu       vrt.Mutex
+	ENIs     map[string]*NodeENI
+	nextENI  int
+	nextIP   int
+	Log      []Call
 	// Monitor is called (under the lock, before the effect) for every call: C06's oracle.
 	Monitor func(n *Node, c *Call)
 	// AfterEffect is called under the lock right after a successful effect.
@@ -315,6 +317,19 @@ func (n *Node) LoadNetworkInterface(mac string) ([]netip.Addr, []netip.Addr, err
 	for _, e := range n.ENIs {
 		if e.MAC == mac && !e.Deleted {
 			v4, v6 := append([]netip.Addr{}, e.V4...), append([]netip.Addr{}, e.V6...)
+			if len(n.HideNext) > 0 {
+				// a lagging / partial metadata answer: the address is still assigned, this one view does not list it
+				keep := func(in []netip.Addr) (out []netip.Addr) {
+					for _, a := range in {
+						if !n.HideNext[a] {
+							out = append(out, a)
+						}
+					}
+					return
+				}
+				v4, v6 = keep(v4), keep(v6)
+				n.HideNext = nil
+			}
 			n.Loads = append(n.Loads, LoadView{MAC: mac, V4: v4, V6: v6, Seq: len(n.Log)})
 			n.end(c, nil)
 			return v4, v6, nil
